@@ -107,6 +107,7 @@ func main() {
 		os.MkdirAll(dir, 0755)
 		solveAll(results, dir, *sec, *all, 10)
 		bad := 0
+		errShown := map[string]bool{}
 		for _, r := range results {
 			fmt.Printf("== %s: %d obligations\n", r.Name, len(r.Obls))
 			for _, er := range r.Errors {
@@ -128,8 +129,9 @@ func main() {
 					bad++
 				}
 				fmt.Printf("   %s %-60s %-8s %-10s %5.2fs  %s:%d  %s\n", mark, strings.TrimPrefix(o.Name, r.Name+"/"), o.Result.Status, o.Result.Solver, o.Result.Seconds, filepath.Base(o.Pos.Filename), o.Pos.Line, trunc(o.Text, 70))
-				if o.Result.Status == "error" {
-					fmt.Println("        ", o.Result.Output)
+				if o.Result.Status == "error" && !errShown[r.Name] {
+					errShown[r.Name] = true
+					fmt.Println("        ", trunc(o.Result.Output, 400))
 				}
 			}
 		}
